@@ -890,7 +890,19 @@ PPL::Polyhedron::update_constraints() const {
   PPL_ASSERT(!has_something_pending());
 
   Polyhedron& x = const_cast<Polyhedron&>(*this);
-  minimize(false, x.gen_sys, x.con_sys, x.sat_c);
+  try {
+    minimize(false, x.gen_sys, x.con_sys, x.sat_c);
+  }
+  catch (...) {
+    // The conversion works in place on `con_sys' and `sat_c' (and permutes
+    // the rows of `gen_sys'): if it is cut short (memory exhaustion,
+    // abandoned computation) only `gen_sys' still describes `x'.
+    // Note: the constraints may be flagged as up-to-date on entry.
+    x.gen_sys.set_sorted(false);
+    x.clear_generators_minimized();
+    x.clear_constraints_up_to_date();
+    throw;
+  }
   // `sat_c' is the only saturation matrix up-to-date.
   x.set_sat_c_up_to_date();
   x.clear_sat_g_up_to_date();
@@ -911,7 +923,21 @@ PPL::Polyhedron::update_generators() const {
   Polyhedron& x = const_cast<Polyhedron&>(*this);
   // If the system of constraints is not consistent the
   // polyhedron is empty.
-  const bool empty = minimize(true, x.con_sys, x.gen_sys, x.sat_g);
+  bool empty;
+  try {
+    empty = minimize(true, x.con_sys, x.gen_sys, x.sat_g);
+  }
+  catch (...) {
+    // The conversion works in place on `gen_sys' and `sat_g' (and permutes
+    // the rows of `con_sys'): if it is cut short (memory exhaustion,
+    // abandoned computation) only `con_sys' still describes `x'.
+    // Note: the generators may be flagged as up-to-date on entry
+    // (see select_H79_constraints()).
+    x.con_sys.set_sorted(false);
+    x.clear_constraints_minimized();
+    x.clear_generators_up_to_date();
+    throw;
+  }
   if (empty) {
     x.set_empty();
   }
